@@ -514,6 +514,16 @@ def rule_modular_successor(res, rid, m):
                     t = e.get("t") or {}
                     if e.get("k") == "bin" and e.get("op") in ("+", "-") and t.get("bits", 0) > 16:
                         bad = e
+                # the expected value is exactly the stored counter + 1
+                succ_ok = False
+                for side in (a, b):
+                    def syms(z):
+                        return "cur" if z.get("k") == "member" and z.get("field") in f16 else None
+                    form = _linear(f, side, syms)
+                    if form is not None and form.get("cur") == 1 and form.get(1, 0) == 1 and set(form) <= {"cur", 1}:
+                        succ_ok = True
+                res.check(succ_ok, rid, "addSegment:counter-successor", x.get("loc"), "expected counter = stored counter + 1",
+                          "the sequence counter of a continuation is not compared with exactly `stored counter + 1`: %s" % canon(x))
                 res.check(bad is None, rid, "addSegment:counter-compare", x.get("loc"),
                           "sequence counter compared in 16-bit arithmetic: %s" % canon(x),
                           "16-bit counter compared with `%s` evaluated in %s-bit arithmetic: 65535 + 1 = 65536 never equals the "
